@@ -548,6 +548,11 @@ class TransferManager(BaseManager):
 
         # Downloads will just get remotely queued
         for download in downloads:
+            # A previous attempt that is still running should not be replaced:
+            # its handle would be lost and it could no longer be cancelled
+            if download._remotely_queue_task is not None and not download._remotely_queue_task.done():
+                continue
+
             download._remotely_queue_task = asyncio.create_task(
                 self._queue_remotely(download),
                 name=f'queue-remotely-{task_counter()}'
@@ -558,6 +563,9 @@ class TransferManager(BaseManager):
 
         # Uploads should be initialized and uploaded if possible
         for upload in uploads[:free_upload_slots]:
+            if upload._transfer_task is not None and not upload._transfer_task.done():
+                continue
+
             upload._transfer_task = asyncio.create_task(
                 self._initialize_upload(upload),
                 name=f'initialize-upload-{task_counter()}'
